@@ -434,7 +434,36 @@ fn one_scenario(cfg: &CheckCfg, index: usize, known: &KnownFile) -> JobOut {
             for _ in 0..cfg.multi_fault_plans {
                 let n = 2 + rng_fault.below(2);
                 let mut plan = vec![];
-                if rng_fault.chance(1, 3) {
+                let write_sites: Vec<&(usize, Fault)> = candidates
+                    .iter()
+                    .filter(|(_, f)| f.class == OpClass::Write && matches!(f.kind, FaultKind::ShortWrite(_)))
+                    .collect();
+                if !write_sites.is_empty() && rng_fault.chance(1, 4) {
+                    // the device takes a part of a write and refuses the rest: a short write,
+                    // then a hard error on the very next write of the same statement execution
+                    let (pi, f) = **rng_fault.pick(&write_sites);
+                    if let FaultAddr::Stmt { stmt, occ, ordinal } = f.addr {
+                        plan.push(PlanItem {
+                            prog: pi,
+                            fault: FaultSer::from_fault(&f),
+                        });
+                        let mut g = f;
+                        g.addr = FaultAddr::Stmt {
+                            stmt,
+                            occ,
+                            ordinal: ordinal + 1,
+                        };
+                        g.kind = FaultKind::Error(*rng_fault.pick(&[
+                            IoKind::StorageFull,
+                            IoKind::BrokenPipe,
+                            IoKind::Other,
+                        ]));
+                        plan.push(PlanItem {
+                            prog: pi,
+                            fault: FaultSer::from_fault(&g),
+                        });
+                    }
+                } else if rng_fault.chance(1, 3) {
                     // transient: the same site fails on consecutive executions
                     let (pi, f) = candidates[rng_fault.below(candidates.len())];
                     if let FaultAddr::Stmt { stmt, occ, ordinal } = f.addr {
